@@ -109,6 +109,7 @@ func (h *header) unpack(msg []byte, off int) (int, error) {
 
 type Msg struct {
 	Header
+	verifState  verifMsgState
 	Questions   []*Question
 	Answers     []Resource
 	Authorities []Resource
@@ -137,10 +138,16 @@ func (m *Msg) Len() (l int) {
 var msgPool = sync.Pool{New: func() any { return new(Msg) }}
 
 func NewMsg() *Msg {
+	if verifOn {
+		return verifNewMsg()
+	}
 	return msgPool.Get().(*Msg)
 }
 
 func ReleaseMsg(m *Msg) {
+	if verifOn {
+		verifReleaseMsg(m)
+	}
 	m.Header = Header{}
 
 	for _, q := range m.Questions {
